@@ -1,5 +1,7 @@
 package rux
 
+import "strconv"
+
 // C13 — bad route definitions fail at registration; accepted ones never
 // panic at lookup.
 
@@ -203,4 +205,24 @@ func verifHarness_C13_lookupTotal() {
 	k := verifCatch(func() { r.QuickMatch(m, p) })
 	verifAssert(k == "", "lookup on an accepted table never panics")
 	verifCover("C13 lookup tried")
+}
+
+// Options cannot be changed once routes exist - however many routes that is
+// (counts at which a narrow counter would be back at zero included).
+func verifHarness_C13_optionsAfterRoutes() {
+	n := []int{1, 255, 256, 65535, 65536, 65537}[verifCfg()%6]
+	r := New()
+	methods := []string{"GET", "POST", "PUT", "PATCH", "DELETE", "OPTIONS", "HEAD", "TRACE"}
+	left := n
+	for i := 0; left > 0; i++ {
+		k := len(methods)
+		if left < k {
+			k = left
+		}
+		r.Add("/s"+strconv.Itoa(i), verifNop, methods[:k]...)
+		left -= k
+	}
+	k := verifCatch(func() { r.WithOptions(EnableCaching) })
+	verifAssert(k == "panic", "options cannot be set after routes have been added")
+	verifCover("C13 options after routes")
 }
